@@ -33,7 +33,8 @@ type schedRoles struct {
 	Keys     *types.Var    // reference -> job key
 	Inner    *types.Var    // underlying scheduler
 	Schedule *ssa.Function // internal helper that registers a job
-	KeyFn    *ssa.Function // builds the job key
+	KeyCall  *ssa.Call     // quartz.NewJobKey(…) evaluated by the schedule helper (inline or through a helper)
+	JobFn    *ssa.Function // the function handed to the quartz job
 	TellFn   *ssa.Function // job callback target
 	MsgT     *types.Named  // SchedulerMessage
 	problems []string
@@ -95,18 +96,34 @@ func (p *Program) schedRoles() *schedRoles {
 		}
 	}
 	if s.Schedule != nil {
-		for _, b := range s.Schedule.Blocks {
-			for _, in := range b.Instrs {
-				if c := callOf(in); c != nil && c.StaticCallee() != nil && p.inModule(c.StaticCallee()) {
-					res := c.StaticCallee().Signature.Results()
-					if res.Len() == 1 && strings.HasSuffix(res.At(0).Type().String(), "quartz.JobKey") {
-						s.KeyFn = c.StaticCallee()
+		// the helper with its single-use helpers spliced in: the key may be built inline or by a helper, the job function may be
+		// created by a helper
+		g := p.igx(s.Schedule)
+		for _, in := range g.Nodes {
+			c, isC := in.(*ssa.Call)
+			if !isC {
+				continue
+			}
+			q := calleeQual(&c.Call)
+			if strings.HasSuffix(q, "quartz.NewJobKey") {
+				s.KeyCall = c
+			}
+			if strings.Contains(q, "job.NewFunctionJob") && len(c.Call.Args) > 0 {
+				v := c.Call.Args[0]
+				for {
+					if ct, isCT := v.(*ssa.ChangeType); isCT {
+						v = ct.X
+						continue
 					}
+					break
+				}
+				if mc, isMC := v.(*ssa.MakeClosure); isMC {
+					s.JobFn, _ = mc.Fn.(*ssa.Function)
 				}
 			}
 		}
-		for _, a := range s.Schedule.AnonFuncs {
-			for _, b := range a.Blocks {
+		if s.JobFn != nil {
+			for _, b := range s.JobFn.Blocks {
 				for _, in := range b.Instrs {
 					if c := callOf(in); c != nil && c.StaticCallee() != nil && c.StaticCallee().Signature.Recv() != nil && namedOf(c.StaticCallee().Signature.Recv().Type()) == s.T {
 						s.TellFn = c.StaticCallee()
@@ -131,10 +148,13 @@ func (p *Program) schedRoles() *schedRoles {
 			s.problems = append(s.problems, "scheduler role "+name)
 		}
 	}
-	for name, v := range map[string]*ssa.Function{"schedule helper": s.Schedule, "key builder": s.KeyFn, "job callback": s.TellFn} {
+	for name, v := range map[string]*ssa.Function{"schedule helper": s.Schedule, "job function": s.JobFn, "job callback": s.TellFn} {
 		if v == nil {
 			s.problems = append(s.problems, "scheduler role "+name)
 		}
+	}
+	if s.KeyCall == nil {
+		s.problems = append(s.problems, "scheduler role key builder")
 	}
 	if s.MsgT == nil {
 		s.problems = append(s.problems, "scheduler message type")
@@ -234,54 +254,42 @@ func c20Keys(p *Program, r *Report) {
 	if s == nil {
 		return
 	}
-	// key builder: ctx.Ref().GetPath() + ":" + reference
+	// key builder: ctx.Ref().GetPath() + ":" + reference, with ctx the scheduler's own context and reference the option's
+	g := p.igx(s.Schedule)
+	defer p.withGraph(g)()
 	ok := false
 	desc := ""
-	for _, b := range s.KeyFn.Blocks {
-		for _, in := range b.Instrs {
-			c := callOf(in)
-			if c == nil || !strings.HasSuffix(calleeQual(c), "quartz.NewJobKey") {
-				continue
-			}
-			// arg = (path + ":") + reference
-			outer, isB := c.Args[0].(*ssa.BinOp)
-			if !isB || outer.Op != token.ADD {
-				continue
-			}
-			inner, isB2 := outer.X.(*ssa.BinOp)
-			if !isB2 || inner.Op != token.ADD {
-				continue
-			}
+	keyCall := s.KeyCall
+	// arg = (path + ":") + reference
+	if outer, isB := keyCall.Call.Args[0].(*ssa.BinOp); isB && outer.Op == token.ADD {
+		if inner, isB2 := outer.X.(*ssa.BinOp); isB2 && inner.Op == token.ADD {
 			sep, isC := inner.Y.(*ssa.Const)
 			po := p.origins(inner.X)
 			ro := p.origins(outer.Y)
 			desc = strings.Join(po, "|") + " + sep + " + strings.Join(ro, "|")
-			ok = isC && sep.Value != nil && strings.Contains(sep.Value.ExactString(), ":") && allContain(po, "GetPath<-call:") && allContain(po, "Ref<-param:") && allContain(ro, "param:")
+			ok = isC && sep.Value != nil && strings.Contains(sep.Value.ExactString(), ":") && allContain(po, "GetPath<-call:") && allContain(po, "Ref<-") &&
+				allContain(po, "field:"+s.T.Obj().Name()+".ctx<-param:") && allContain(ro, ".Reference<-param:")
 		}
 	}
-	r.Check(ok, "job key = owner path + ':' + reference", s.KeyFn.Pos(), "the quartz key is built from the owning actor's path and the caller's reference ("+desc+"): equal references on different actors do not collide")
-	// schedule helper: key built for (own ctx, opts.Reference); recorded under opts.Reference with that key
-	g := p.ig(s.Schedule)
-	var keyCall *ssa.Call
-	for _, in := range g.Nodes {
-		if c, isC := in.(*ssa.Call); isC && c.Call.StaticCallee() == s.KeyFn {
-			keyCall = c
+	r.Check(ok, "job key = owner path + ':' + reference", keyCall.Pos(), "the quartz key is built from the owning actor's path and the caller's reference ("+desc+"): equal references on different actors do not collide")
+	sameKey := func(v ssa.Value) bool {
+		vs := g.values(v)
+		for _, x := range vs {
+			if x != ssa.Value(keyCall) {
+				return false
+			}
 		}
+		return len(vs) > 0
 	}
-	ok = keyCall != nil
-	if ok {
-		ok = allContain(p.origins(keyCall.Call.Args[0]), "field:"+s.T.Obj().Name()+".ctx<-param:") && allContain(p.origins(keyCall.Call.Args[1]), ".Reference<-param:")
-	}
-	r.Check(ok, "schedule helper keys the job by own context and the option's reference", s.Schedule.Pos(), "uniqueJobKey(s.ctx, opts.Reference)")
 	okRec := false
 	for _, a := range p.fieldAccesses(map[*types.Var]bool{s.Keys: true}) {
-		if a.Fn == s.Schedule && a.Kind == "map-update" {
+		if g.owns(p, a.Fn) && a.Kind == "map-update" {
 			mu := a.In.(*ssa.MapUpdate)
-			okRec = keyCall != nil && strip(mu.Value) == ssa.Value(keyCall) && allContain(p.origins(mu.Key), ".Reference<-param:")
+			okRec = sameKey(mu.Value) && allContain(p.origins(mu.Key), ".Reference<-param:")
 			// the job detail scheduled uses the same key
 			used := false
 			for _, in := range g.Nodes {
-				if c := callOf(in); c != nil && strings.HasSuffix(calleeQual(c), "quartz.NewJobDetail") && strip(c.Args[1]) == ssa.Value(keyCall) {
+				if c := callOf(in); c != nil && strings.HasSuffix(calleeQual(c), "quartz.NewJobDetail") && sameKey(c.Args[1]) {
 					used = true
 				}
 			}
@@ -495,16 +503,15 @@ func c20Delivery(p *Program, r *Report) {
 	}
 	// job closure calls the callback with the schedule helper's receiver/message params
 	okJ := false
-	for _, a := range s.Schedule.AnonFuncs {
-		for _, b := range a.Blocks {
-			for _, in := range b.Instrs {
-				if c := callOf(in); c != nil && c.StaticCallee() == s.TellFn {
-					// free variables bound to the helper's parameters receiver (1) and message (2)
-					okJ = true
-					for ai, want := range map[int]int{1: 1, 2: 2} {
-						if resolveFreeVar(a, c.Args[ai]) != ssa.Value(s.Schedule.Params[want]) {
-							okJ = false
-						}
+	sg := p.igx(s.Schedule)
+	for _, b := range s.JobFn.Blocks {
+		for _, in := range b.Instrs {
+			if c := callOf(in); c != nil && c.StaticCallee() == s.TellFn {
+				// free variables bound to the helper's parameters receiver (1) and message (2)
+				okJ = true
+				for ai, want := range map[int]int{1: 1, 2: 2} {
+					if fv := resolveFreeVar(s.JobFn, c.Args[ai]); fv == nil || sg.res(fv) != ssa.Value(s.Schedule.Params[want]) {
+						okJ = false
 					}
 				}
 			}
@@ -677,7 +684,7 @@ func c20Errors(p *Program, r *Report) {
 	rec := true
 	n := 0
 	for _, a := range p.fieldAccesses(map[*types.Var]bool{s.Keys: true}) {
-		if a.Fn == s.Schedule && a.Kind == "map-update" {
+		if g.owns(p, a.Fn) && a.Kind == "map-update" {
 			n++
 			if !g.DominatedByEdges(a.Node, okE) {
 				rec = false
